@@ -408,6 +408,7 @@ impl Beatmap {
                 &control_points,
                 &last_props,
                 group.timing.is_some(),
+                self.mode,
             );
 
             if let Some(timing) = group.timing {
@@ -520,6 +521,7 @@ impl ControlPointProperties {
         control_points: &ControlPoints,
         last_props: &Self,
         update_sample_bank: bool,
+        mode: GameMode,
     ) -> Self {
         let timing = control_points.timing_point_at(time);
         let difficulty = control_points.difficulty_point_at(time);
@@ -543,10 +545,27 @@ impl ControlPointProperties {
             effect_flags |= EffectFlags::OMIT_FIRST_BAR_LINE;
         }
 
-        Self {
-            slider_velocity: difficulty.map_or(DifficultyPoint::DEFAULT_SLIDER_VELOCITY, |point| {
+        let mut slider_velocity = difficulty
+            .map_or(DifficultyPoint::DEFAULT_SLIDER_VELOCITY, |point| {
                 point.slider_velocity
-            }),
+            });
+
+        // In taiko and mania the multiplier of a line is read as the scroll
+        // speed too, whose lower bound (0.01) is smaller than the one of the
+        // slider velocity (0.1). Whenever the scroll speed yields the very same
+        // slider velocity, writing the scroll speed preserves both.
+        if matches!(mode, GameMode::Taiko | GameMode::Mania) {
+            let scroll_speed =
+                effect.map_or(EffectPoint::DEFAULT_SCROLL_SPEED, |point| point.scroll_speed);
+            let implied = DifficultyPoint::new(time, 0.0, scroll_speed).slider_velocity;
+
+            if (implied - slider_velocity).abs() < f64::EPSILON {
+                slider_velocity = scroll_speed;
+            }
+        }
+
+        Self {
+            slider_velocity,
             timing_signature: timing
                 .map_or(TimingPoint::DEFAULT_TIME_SIGNATURE, |point| {
                     point.time_signature
